@@ -54,7 +54,7 @@ class C07Check(Check):
         "termination is judged with a deterministic fuel of %d line events inside skactiveml per query" % FUEL,
         "the annotators-per-sample clause is only judged for an integer request and only where the selected samples offer enough pairs at the requested number",
     ]
-    tiers = {"quick": {"runs": 1500, "wall_cap": 500, "chunk": 15}, "thorough": {"runs": 36000, "wall_cap": 3300, "chunk": 30}}
+    tiers = {"quick": {"runs": 4000, "wall_cap": 600, "chunk": 15}, "thorough": {"runs": 80000, "wall_cap": 3300, "chunk": 30}}
 
     def generate(self, rng: SimRng):
         g = rng.fork("workload")
